@@ -773,15 +773,27 @@ pub fn run(ctx: Ctx) -> ! {
         Tier::Thorough => vec![
             SubBox { name: "all trees of depth <= 2, 14 leaves".into(), leaves: LEAVES_FULL.to_vec(), deep: 1, shallow: 1 },
             SubBox {
-                name: "trees of depth <= 3 whose root has an operand of depth <= 1, 5 leaves".into(),
-                leaves: vec!["-2", "1", "2", "a", "x"],
+                name: "trees of depth <= 3 whose root has a leaf operand, 4 leaves".into(),
+                leaves: vec!["-2", "1", "a", "x"],
+                deep: 2,
+                shallow: 0,
+            },
+            SubBox {
+                name: "trees of depth <= 3 whose root has an operand of depth <= 1, 3 leaves".into(),
+                leaves: vec!["-2", "a", "x"],
                 deep: 2,
                 shallow: 1,
             },
         ],
     };
     let mut box_reports = Vec::new();
-    for b in &boxes {
+    // Development aid: `--box <i>` runs a single sub-box (evidence then says so).
+    let only: Option<usize> =
+        ctx.extra_args.iter().position(|a| a == "--box").and_then(|i| ctx.extra_args.get(i + 1)).and_then(|s| s.parse().ok());
+    for (bi, b) in boxes.iter().enumerate() {
+        if only.is_some() && only != Some(bi) {
+            continue;
+        }
         let r = run_box(b, &mut total, &distinct);
         println!("C11 sub-box [{}]: {} trees, {:.1}s elapsed", b.name, r["trees"], ctx.elapsed_s());
         box_reports.push(r);
